@@ -332,3 +332,145 @@ Proof.
   intros Hh Hr. destruct (sum_rows_gen n h r all_phases (vzero n) Hh Hr (vzero_length n)) as [A B].
   split; [exact A|]. intros j. unfold sum_rows. rewrite B. rewrite nthq_vzero. lra.
 Qed.
+
+(* ================= views_live: an invariant of every history ================= *)
+(* every view object still in the parent's _streams cache aliases the parent's CURRENT row for its
+   label and every view object ever made shares the parent's thermal-condition object *)
+Definition live_inv (s : st) : Prop :=
+  forall v, In v (views s) ->
+    vtc v = ptc s /\
+    (vin v = true -> exists r, par s = Multi r /\ rlookup r (vlabel v) = Some (vcell v)).
+
+Lemma live_clear s p :
+  (forall v, In v (views s) -> vtc v = ptc s) ->
+  forall v, In v (map uncache (views s)) -> vtc v = ptc s /\ (vin v = true -> exists r, p = Multi r /\ rlookup r (vlabel v) = Some (vcell v)).
+Proof.
+  intros H v Hv. apply in_map_iff in Hv. destruct Hv as (w & <- & Hw). simpl.
+  split; [apply H; exact Hw|discriminate].
+Qed.
+
+Lemma live_tc s : live_inv s -> forall v, In v (views s) -> vtc v = ptc s.
+Proof. intros H v Hv. apply (H v Hv). Qed.
+
+Lemma to_single_live s p s' : live_inv s -> to_single s p = Ok s' -> live_inv s'.
+Proof.
+  unfold to_single. intros L H. destruct (par s) as [p0 c|r] eqn:Ps.
+  - inversion H; subst. intros v Hv. simpl in *. destruct (L v Hv) as [A B]. split; [exact A|].
+    intros Hin. destruct (B Hin) as (r & Hr & _). congruence.
+  - destruct (Nat.eqb (pset_card (rset r)) 0); [discriminate|]. inversion H; subst.
+    intros v Hv. simpl in Hv. simpl.
+    apply (live_clear s (Single p (length (heap s))) (live_tc s L) v Hv).
+Qed.
+
+Lemma set_phases_live s t bad s' : live_inv s -> set_phases s t bad = Ok s' -> live_inv s'.
+Proof.
+  unfold set_phases. intros L H. destruct (par s) as [p0 c|r0] eqn:Ps.
+  - destruct (Nat.eqb _ 1).
+    + destruct bad; [discriminate|]. eapply to_single_live; eauto.
+    + destruct bad; [discriminate|]. destruct (blank (nch s) t (heap s)) as [h1 r] eqn:B.
+      destruct (any_nz (cellv (heap s) c)).
+      * destruct (rlookup r p0); [|discriminate]. inversion H; subst.
+        intros v Hv. simpl in Hv. simpl. apply (live_clear s (Multi r) (live_tc s L) v Hv).
+      * inversion H; subst. intros v Hv. simpl in Hv. simpl.
+        apply (live_clear s (Multi r) (live_tc s L) v Hv).
+  - destruct (Nat.eqb _ 1).
+    + destruct bad; [destruct (Nat.eqb _ 0); discriminate|]. eapply to_single_live; eauto.
+    + destruct bad; [discriminate|]. destruct (pset_eqb t (rset r0)); [inversion H; subst; exact L|].
+      destruct (blank (nch s) t (heap s)) as [h1 r] eqn:B.
+      destruct (move_rows all_phases r0 h1 r) as [h2|e]; [|discriminate]. simpl in H.
+      inversion H; subst. intros v Hv. simpl in Hv. simpl.
+      apply in_map_iff in Hv. destruct Hv as (w & <- & Hw).
+      unfold rebind. destruct (vin w) eqn:Win.
+      * destruct (rlookup r (vlabel w)) as [c|] eqn:Lk; simpl.
+        -- split; [apply (live_tc s L w Hw)|]. intros _. exists r. split; auto.
+        -- split; [apply (live_tc s L w Hw)|discriminate].
+      * split; [apply (live_tc s L w Hw)|]. rewrite Win. discriminate.
+Qed.
+
+Lemma set_phase_live s ls s' : live_inv s -> set_phase s ls = Ok s' -> live_inv s'.
+Proof.
+  unfold set_phase. intros L H. destruct (par s) as [p0 c|r0] eqn:Ps.
+  - destruct ls as [|q [|? ?]]; try discriminate. inversion H; subst.
+    intros v Hv. simpl in *. destruct (L v Hv) as [A B]. split; [exact A|].
+    intros Hin. destruct (B Hin) as (r & Hr & _). congruence.
+  - destruct ls as [|q [|q' ls']].
+    + eapply to_single_live; eauto.
+    + eapply to_single_live; eauto.
+    + eapply set_phases_live; eauto.
+Qed.
+
+Lemma heap_only_live s h : live_inv s -> live_inv (set_heap s h).
+Proof. intros L v Hv. exact (L v Hv). Qed.
+Lemma tcs_only_live s t : live_inv s -> live_inv (set_tcs s t).
+Proof. intros L v Hv. exact (L v Hv). Qed.
+
+Lemma empty_all_live s : live_inv s -> live_inv (empty_all s).
+Proof. unfold empty_all. intros L. destruct (par s); apply heap_only_live; exact L. Qed.
+
+Lemma restore_live s d s' : live_inv s -> restore s d = Ok s' -> live_inv s'.
+Proof.
+  unfold restore. intros L H.
+  destruct (set_phases (empty_all s) (fun p => isSome (sd_rows d p)) false) as [s1|e] eqn:S1; [|discriminate].
+  simpl in H. assert (L1 : live_inv s1) by (eapply set_phases_live; [apply empty_all_live; exact L|exact S1]).
+  destruct (par s1) as [p c|r] eqn:P1.
+  - destruct (sd_single d) as [q|]; [|discriminate]. destruct (sd_rows d q) as [v|]; [|discriminate].
+    simpl in H. inversion H; subst. intros w Hw. simpl in *. destruct (L1 w Hw) as [A B].
+    split; [exact A|]. intros Hin. destruct (B Hin) as (r & Hr & _). congruence.
+  - destruct (sd_single d) as [q|]; [discriminate|]. simpl in H. inversion H; subst.
+    intros w Hw. simpl in *. destruct (L1 w Hw) as [A B]. split; [exact A|].
+    intros Hin. destruct (B Hin) as (r' & Hr & Hl). exists r'. split; [congruence|exact Hl].
+Qed.
+
+Lemma find_cached_none vs l : forall i, find_cached vs l i = None ->
+  forall v, In v vs -> vin v = true -> vlabel v <> l.
+Proof.
+  induction vs as [|a vs IH]; intros i H v Hv Hin; [destruct Hv|].
+  simpl in H. destruct (vin a && phase_eqb (vlabel a) l) eqn:E; [discriminate|].
+  destruct Hv as [->|Hv].
+  - rewrite Hin in E. simpl in E. apply phase_eqb_neq. exact E.
+  - eapply IH; eauto.
+Qed.
+
+Lemma step_live s o s' : live_inv s -> step s o = Ok s' -> live_inv s'.
+Proof.
+  intros L H. destruct o; simpl in H.
+  - eapply set_phases_live; eauto.
+  - eapply set_phase_live; eauto.
+  - unfold reduce_phases in H. destruct (par s); [inversion H; subst; exact L|]. eapply set_phase_live; eauto.
+  - unfold as_stream in H. destruct (par s) as [|r]; [inversion H; subst; exact L|].
+    destruct (phase_string (heap s) r) as [|q [|q' l']].
+    + destruct (pset_list (rset r)); [discriminate|]. eapply set_phase_live; eauto.
+    + eapply set_phase_live; eauto.
+    + discriminate.
+  - unfold accessor in H. destruct (acc_pair a) as [x y]. destruct (par s) as [p c|r].
+    + eapply set_phases_live; eauto.
+    + destruct (rset r x && rset r y); [inversion H; subst; exact L|]. eapply set_phases_live; eauto.
+  - unfold get_view in H. destruct (par s) as [p c|r] eqn:Ps.
+    + destruct (lower_eqb l p); [|discriminate]. inversion H; subst. intros v Hv. exact (L v Hv).
+    + destruct (find_cached (views s) l 0); [inversion H; subst; intros v Hv; exact (L v Hv)|].
+      destruct (rlookup r l) as [c|] eqn:Lk; [|discriminate]. inversion H; subst.
+      intros v Hv. simpl in Hv. simpl. apply in_app_or in Hv. destruct Hv as [Hv|[<-|[]]].
+      * exact (L v Hv).
+      * simpl. split; auto. intros _. exists r. split; auto.
+  - unfold write_view in H. destruct (nth_error (views s) i); [|discriminate]. inversion H; subst.
+    apply heap_only_live; exact L.
+  - unfold write_parent in H. destruct (par s) as [p c|r].
+    + inversion H; subst. apply heap_only_live; exact L.
+    + destruct (rlookup r l); [|discriminate]. inversion H; subst. apply heap_only_live; exact L.
+  - inversion H; subst. apply tcs_only_live; exact L.
+  - inversion H; subst. apply tcs_only_live; exact L.
+  - destruct (nth_error (views s) i); [|discriminate]. inversion H; subst. apply tcs_only_live; exact L.
+  - destruct (nth_error (views s) i); [|discriminate]. inversion H; subst. apply tcs_only_live; exact L.
+  - destruct (nth_error (views s) i) as [v|]; [|discriminate].
+    destruct (phase_eqb (vlabel v) l); [|discriminate]. inversion H; subst. exact L.
+  - inversion H; subst. intros v Hv. exact (L v Hv).
+  - destruct (nth_error (saved s) k); [|discriminate]. eapply restore_live; eauto.
+Qed.
+
+Lemma run_live ops : forall s s', live_inv s -> run s ops = Ok s' -> live_inv s'.
+Proof.
+  induction ops as [|o ops IH]; intros s s' L H; simpl in H.
+  - inversion H; subst; exact L.
+  - destruct (step s o) as [s1|e] eqn:S1; [|discriminate]. simpl in H.
+    eapply IH; [eapply step_live; eauto|exact H].
+Qed.
